@@ -130,6 +130,11 @@ def run(ctx):
                                  {"env": "swallow", "execmodel": "thread", "topo": "popen"}]},
         {"timeout": 0.5, "gws": [{"env": "receive", "execmodel": "thread", "topo": "via"}]},
         {"timeout": 0.5, "gws": [{"env": "stopped", "execmodel": "thread", "topo": "via"}]},
+        # the worker closes its connection but hangs in its own teardown (exit hook): only the kill ends it - also behind a forwarder,
+        # whose receiver thread must not be stuck in the wait request by then
+        {"timeout": 0.5, "gws": [{"env": "atexit_hang", "execmodel": "thread", "topo": "popen"}]},
+        {"timeout": 0.5, "gws": [{"env": "atexit_hang", "execmodel": "thread", "topo": "via"}]},
+        {"timeout": 0.5, "gws": [{"env": "nondaemon", "execmodel": "thread", "topo": "via"}]},
         {"timeout": 0.5, "gws": [{"env": "busy", "execmodel": "thread", "topo": "socket"}]},
         {"timeout": 1.0, "gws": [{"env": "sleep", "execmodel": "gevent", "topo": "popen"}]},
         {"timeout": 0.2, "gws": [{"env": "sigign", "execmodel": "main_thread_only", "topo": "popen"}, {"env": "stopped", "execmodel": "thread", "topo": "popen"}]},
